@@ -186,9 +186,14 @@ def r20_2(run):
                 bst = [e for e in r.events[t["body_events"][0]:t["body_events"][1]] if e.kind == "store"]
                 hst = [e for e in r.events[h["events"][0]:h["events"][1]] if e.kind == "store"]
                 names = sorted(set(t["body"]) | {k for k in h["env"] if k in t["body"]})
-                for nm in names:
+                pairs = [(nm, t["body"].get(nm), h["env"].get(nm)) for nm in names]
+                # arms of a (substituted) helper that *return* the value instead of binding a name
+                bret = [e for e in r.events[t["body_events"][0]:t["body_events"][1]] if e.kind in ("return", "inlined-return")]
+                hret = [e for e in r.events[h["events"][0]:h["events"][1]] if e.kind in ("return", "inlined-return")]
+                if len(bret) == 1 and len(hret) == 1:
+                    pairs.append(("<returned value>", bret[0].value, hret[0].value))
+                for nm, a, b in pairs:
                     n_pairs += 1
-                    a, b = t["body"].get(nm), h["env"].get(nm)
                     k0 = "%s.%s|%s|%s" % (cname, mname, label, nm)
                     run.ob(k0 + "|same-cells", b is not None and tkey(_cellnorm(a)) == tkey(_cellnorm(b)),
                            "the scalar (.at) and the fallback (.loc) arm read the same cells in the same order: %s" % nm, where,
@@ -282,10 +287,22 @@ def r20_4(run):
     run.ob("evaluate|all-members-counted", ok2, "every member net of multinet['nets'] contributes its verdict", w)
     rn = ix.func(MRC + "._relevant_nets")
     st = [s_ for s_ in r.stores() if s_.loops and s_.base == expect(ix, f, "ctrl_variables['nets']")]
-    ok = len(st) == 1 and st[0].value[0] == "ite"
+    ok = len(st) == 1
     if ok:
-        c_, a_, b_ = st[0].value[1:]
         K = st[0].index[0]
+        old_entry = expect(ix, f, "ctrl_variables['nets'][K]", env={"K": K})
+        if st[0].value[0] == "ite":
+            # entry = <re-evaluation> if <relevant> else <old entry>
+            c_, a_, b_ = st[0].value[1:]
+        elif len(st[0].cond) >= 1:
+            # if <relevant>: entry = <re-evaluation>       (the others keep their entry because nothing is stored)
+            from ..arrnf import norm_cond as _nc
+            c_, pol_ = _nc(*st[0].cond[-1])
+            a_, b_ = st[0].value, old_entry
+            ok = pol_
+        else:
+            ok = False
+    if ok:
         rel = ("idx", ("call", ("f", rn.qualname), (("n", "multinet"), expect(ix, f, "np.array(levelorder)")), ()), (K,))
         ok = c_[0] == "call" and c_[1] in (("x", "numpy.any"), ("x", "builtins.any")) and tkey(c_[2][0]) == tkey(rel) \
             and a_[0] == "call" and a_[1][0] in ("x", "f") and a_[1][1].endswith("_evaluate_net") and tkey(b_) == tkey(expect(ix, f, "ctrl_variables['nets'][K]", env={"K": K})) \
